@@ -22,3 +22,26 @@ Example C17_scaling_nonvacuous :
   let cs := [CSet 0 (1#2) [5%Z]; CWait 1; CLabel 0%Z 2%Z; CInc 0 (1#4) [5%Z]; CWait 1; CJmp 0%Z] in
   exists cs' h t, transform [(2, 1#4)] cs = Ok cs' /\ run_vm_n 20 1 cs' = Ok (h, t) /\ length h = 3%nat.
 Proof. cbv zeta. eexists; eexists; eexists. split; [reflexivity|]. split; [vm_compute; reflexivity|reflexivity]. Qed.
+
+(* The increment kernel (DepState.required_increment_from), any nesting depth and any factors: if the register was
+   last written for the affine form (b_old, fs) at loop indices iolds, and the static iteration vectors of that write
+   and of the new one relate to the executed loop indices by the translator's convention (levels_ok), then adding the
+   computed increment makes the register hold the new affine form (b_new, fs) at the new indices.  This is the
+   induction step of the simulation invariant "register (ch, key) holds base + sum factors * current indices". *)
+Theorem C17_increment_kernel : forall b_old b_new olds news iolds inews fs inc,
+  levels_ok olds news iolds inews ->
+  required_increment_from (b_new, news) (b_old, olds) fs = Ok inc ->
+  (aff_at b_old fs iolds + inc == aff_at b_new fs inews)%Q.
+Proof. exact required_increment_sound. Qed.
+Print Assumptions C17_increment_kernel.
+
+(* non-vacuity: outer loop advances (first -> later pass), inner loop of length 5 starts a new sweep *)
+Example C17_increment_kernel_nonvacuous :
+  levels_ok [0; 4]%Z [2; 0]%Z [0; 4]%Z [1; 0]%Z /\
+  required_increment_from (1#2, [2; 0]%Z) (1#4, [0; 4]%Z) [1#8; 1#16] = Ok ((1#2) - (1#4) + (1#8) - (1#16) * 4)%Q.
+Proof.
+  split; [|reflexivity].
+  constructor. { right; left. repeat split; reflexivity. }
+  constructor. { right; right. repeat split; reflexivity. }
+  constructor.
+Qed.
